@@ -87,12 +87,19 @@ func TestGvcBoundedP12(t *testing.T) {
 	small, _ := new(big.Int).SetString("00000000000000000000000000000000000000000000000000000000000000ff", 16)
 	c1, k1 := mk(small, "small-d") // a private scalar with leading zero bytes
 	subjects = append(subjects, subj{"small-d", c1, k1})
-	passwords := []string{"123", "", "correct horse battery staple", "pässwörd", "密码", "a"}
+	// (the key derivation works on 64-byte blocks of the UTF-16 password: passwords beyond 31 characters need a
+	// second block, so long ones are part of the quick tier too)
+	passwords := []string{"123", "", "correct horse battery staple", "pässwörd", "密码",
+		"correct horse battery staple and forty more characters of it", "0123456789abcdef0123456789abcdef", "密码密码密码密码密码密码密码密码密码密码密码密码密码密码密码密码密码", "a"}
 	if !thorough {
-		passwords = passwords[:5]
+		passwords = passwords[:8]
 	}
 	wrongFor := func(pw string) []string {
 		w := []string{pw + "x", "X" + pw, "other"}
+		if r := []rune(pw); len(r) > 34 {
+			// same first 32 characters (one derivation block), different tail; and the bare prefix
+			w = append(w, string(r[:33])+"~"+string(r[34:]), string(r[:32]), string(r[:len(r)-2])+"zz")
+		}
 		if len(pw) > 0 {
 			w = append(w, pw[:len(pw)-1], "")
 		}
